@@ -83,6 +83,15 @@ theorem C08_recv_never_truncates (s m r : Bytes) (h : recv s = (RecvRes.msg m, r
     ∃ f a b c d, s = f :: a :: b :: c :: d :: (m ++ r) ∧ be32 a b c d = m.length ∧ m.length ≤ maxMsg :=
   recvL_sound maxMsg s m r h
 
+/-- … and for whole traces: for every byte stream (well-formed or not) and any number of Recv calls, the
+    messages handed to the forwarder are, in order, the payloads of complete consecutive frames at the start
+    of the stream (any flag bytes `fl`), each within the limit — nothing altered, invented, merged or cut. -/
+theorem C08_recv_trace_sound (n : Nat) (s : Bytes) :
+    ∃ fl : List UInt8, fl.length = (msgsOf (recvTrace n s)).length ∧
+      ∃ rest, s = (List.zipWith frameF fl (msgsOf (recvTrace n s))).flatten ++ rest ∧
+      ∀ m ∈ msgsOf (recvTrace n s), m.length ≤ maxMsg :=
+  recvTraceL_sound maxMsg n s
+
 /-- What fix D7 removed (shown with limit 2 so the kernel can evaluate it): the old code delivered the first
     `limit` bytes of an oversize frame as the message and took the remainder for the next header; the
     fixed model rejects the frame. -/
@@ -135,6 +144,24 @@ theorem C08_prefix_ws_dropped_empty_and_errors :
       [RecvRes.msg [7], RecvRes.msg [], RecvRes.eof] ∧
     wsRecvTrace 1 (wsEventsWith (onMessagePreFix (fun _ => true)) {} [[], [0, 0]]) = [] ∧
     wsRecvTrace 1 (wsEvents (fun _ => true) {} [[], [0, 0]]) = [RecvRes.err RecvErr.wsHeader] := by
+  decide
+
+/-- A rejected header message ends the call: whatever else the client has sent (and the reader has already
+    buffered) produces no event — no metadata is accepted later, nothing reaches the forwarder. -/
+theorem C08_ws_bad_header_ends_call (mdOk : Bytes → Bool) (h : Bytes) (hbad : mdOk h = false) (ds : List Bytes) :
+    wsEvents mdOk {} (h :: ds) = [WSEv.badMD] := by
+  have e : onMessage mdOk {} h = ({ receivedMD := false, closed := true }, [WSEv.badMD]) := by
+    simp [onMessage, hbad]
+  have := wsEvents_closed mdOk { receivedMD := false, closed := true } rfl ds
+  unfold wsEvents at this ⊢
+  simp [wsEventsWith, e, this]
+
+/-- What fix D8b removed: after the InvalidArgument trailer for a bad header, a buffered empty message was
+    accepted as (empty) metadata and the call was routed and forwarded all the same. -/
+theorem C08_prefix_ws_call_started_after_rejection :
+    wsEventsWith (onMessagePreFix (fun d => d.isEmpty)) {} [[120], [], wsFrame [7]] =
+      [WSEv.badMD, WSEv.md [], WSEv.msg [7]] ∧
+    wsEvents (fun d => d.isEmpty) {} [[120], [], wsFrame [7]] = [WSEv.badMD] := by
   decide
 
 /-! ### response side -/
